@@ -45,6 +45,13 @@ var externalReadOnly = map[string]string{
 	"crypto/hmac.New":                    "copies the key into the new HMAC state",
 	"crypto/subtle.ConstantTimeCompare":  "compares two byte strings",
 	"bytes.Equal":                        "compares two byte strings",
+	"bytes.Compare":                      "compares two byte strings",
+	"bytes.HasPrefix":                    "compares byte strings",
+	"bytes.HasSuffix":                    "compares byte strings",
+	"bytes.Contains":                     "searches a byte string",
+	"bytes.Index":                        "searches a byte string",
+	"bytes.IndexByte":                    "searches a byte string",
+	"bytes.Count":                        "searches a byte string",
 	"bytes.NewReader":                    "wraps the slice read-only (bytes.Reader never writes its buffer)",
 	"bufio.NewReader":                    "wraps a reader",
 	"(*bufio.Reader).ReadByte":           "reads from the underlying reader into bufio's own buffer",
@@ -56,6 +63,16 @@ var externalReadOnly = map[string]string{
 	"crypto/rand.Int":                    "reads max; draws from the reader (crypto/rand.Reader is safe for concurrent use)",
 	"(*math/big.Int).Cmp":                "reads receiver and argument",
 	"(*math/big.Int).Bytes":              "reads the receiver, returns a fresh slice",
+	"(*math/big.Int).Sign":               "reads the receiver",
+	"(*math/big.Int).BitLen":             "reads the receiver",
+	"(*math/big.Int).CmpAbs":             "reads receiver and argument",
+	"(*math/big.Int).String":             "reads the receiver",
+	"(*math/big.Int).Text":               "reads the receiver",
+	"(*math/big.Int).IsInt64":            "reads the receiver",
+	"(*math/big.Int).Int64":              "reads the receiver",
+	"(*math/big.Int).Uint64":             "reads the receiver",
+	"(*math/big.Int).ProbablyPrime":      "reads the receiver",
+	"math/big.NewInt":                    "constructor",
 	"github.com/pkg/errors.Errorf":       "formats its arguments",
 	"github.com/pkg/errors.Wrapf":        "formats its arguments",
 	"github.com/pkg/errors.Wrap":         "wraps an error",
@@ -92,6 +109,22 @@ var externalWritesArg = map[string][]int{
 	"(*math/big.Int).SetString":                 {0},
 	"(*math/big.Int).SetUint64":                 {0},
 	"(*math/big.Int).SetBytes":                  {0},
+	// math/big arithmetic: z.Op(x, y) sets the receiver z and only reads x, y (documented for every method)
+	"(*math/big.Int).Add":        {0},
+	"(*math/big.Int).Sub":        {0},
+	"(*math/big.Int).Mul":        {0},
+	"(*math/big.Int).Div":        {0},
+	"(*math/big.Int).Mod":        {0},
+	"(*math/big.Int).Quo":        {0},
+	"(*math/big.Int).Rem":        {0},
+	"(*math/big.Int).Neg":        {0},
+	"(*math/big.Int).Abs":        {0},
+	"(*math/big.Int).Set":        {0},
+	"(*math/big.Int).SetInt64":   {0},
+	"(*math/big.Int).Lsh":        {0},
+	"(*math/big.Int).Rsh":        {0},
+	"(*math/big.Int).ModInverse": {0},
+	"(*math/big.Int).FillBytes":  {1},
 }
 
 type funcEffects struct {
